@@ -5,6 +5,7 @@ CONSTANTS
   MaxUser = 30
   Monitor = FALSE
   UserCancels = FALSE
+  EagerUser = TRUE
   Log = TRUE
   FaultKinds = {}
   MaxFaults = 0
